@@ -9,7 +9,6 @@ From PV Require Import Common.Util Gen.StateConsts StateVar.StateModel StateVar.
 Record obs := { o_res : option (res pyval); o_state : mstate }.
 
 Record scase := {
-  sc_svcargs : list (ident * ident);
   sc_init : mstate;
   sc_steps : list (step * obs)
 }.
@@ -20,9 +19,13 @@ Fixpoint tlookup (k : N) (t : list (N * N)) : option N :=
 Definition table_fn (t : list (N * N)) (v : N) : N := match tlookup v t with Some x => x | None => v end.
 Fixpoint elookup (e : ename) (t : list (ename * N)) : N :=
   match t with [] => 0%N | (e', v) :: r => if ename_eqb e e' then v else elookup e r end.
-Definition mk_host (strtab eqtab : list (N * N)) (enttab : list (ename * N)) (vtrue vfalse : N) : host :=
+(* [strattrs]: identifiers that are attributes of every str; [pyattrs]: (value, identifier) pairs with hasattr(value, identifier) *)
+Definition mk_host (strtab eqtab : list (N * N)) (enttab : list (ename * N)) (vtrue vfalse : N)
+           (strattrs : list N) (pyattrs : list (N * N)) : host :=
   {| h_str := table_fn strtab; h_eqc := table_fn eqtab; h_entstr := fun e => elookup e enttab;
-     h_bool := fun b => if b then vtrue else vfalse |}.
+     h_bool := fun b => if b then vtrue else vfalse;
+     h_strattr := fun k => existsb (N.eqb k) strattrs;
+     h_pyattr := fun v k => existsb (fun p : N * N => N.eqb v (fst p) && N.eqb k (snd p)) pyattrs |}.
 
 (* the str() table must be idempotent and never produce None (hypotheses of C16_refines); checked in every shard *)
 Definition strtab_ok (t : list (N * N)) : bool :=
@@ -88,6 +91,7 @@ Definition slots_same (a b : list (N * pyval)) : bool :=
 
 Definition mstate_same (a b : mstate) : bool :=
   hamap_same (ms_ha a) (ms_ha b) && names_same (ms_svcs a) (ms_svcs b)
+  && names_same (ms_esvcs a) (ms_esvcs b) && names_same (ms_svcargs a) (ms_svcargs b)
   && pyvars_same (ms_globals a) (ms_globals b) && slots_same (ms_slots a) (ms_slots b).
 
 Definition out_same (a : option (res pyval) * mstate) (o : obs) : bool :=
@@ -100,10 +104,10 @@ Section Walk.
   Variable c : scase.
 
   Definition cfg_of (d : deviations) : config :=
-    {| cf_dev := d; cf_host := H; cf_funcs := state_function_names; cf_svcargs := sc_svcargs c |}.
+    {| cf_dev := d; cf_host := H; cf_funcs := state_function_names |}.
 
   Definition model_out (d : deviations) (now : N) (st : mstate) (s : step) := model_step (cfg_of d) now st s.
-  Definition spec_out (now : N) (st : mstate) (s : step) := spec_step H state_function_names (sc_svcargs c) now st s.
+  Definition spec_out (now : N) (st : mstate) (s : step) := spec_step H state_function_names now st s.
 
   (* indices of the steps on which [f pre step obs] is false *)
   (* step number i (0-based) runs at logical time i+1: the harness sets Home Assistant's wall clock accordingly *)
@@ -156,7 +160,7 @@ Definition scase_spec_ok (H : host) (c : scase) : bool :=
   match spec_bad H c with [] => true | _ => false end.
 (* finding numbers explaining ALL Spec failures of the case; [] if some failing step is not explained *)
 Definition scase_attrib (H : host) (dv : deviations) (c : scase) : list nat :=
-  match attrib_steps H dv c 1%N (sc_init c) (sc_steps c) with Some ks => ks | None => [] end.
+  match attrib_steps H dv 1%N (sc_init c) (sc_steps c) with Some ks => ks | None => [] end.
 
 (* for replays: failing step indices and what Model / Spec produce on the first failing step *)
 Definition first_out (H : host) (dv : deviations) (c : scase) (i : nat) :=
@@ -165,7 +169,7 @@ Definition first_out (H : host) (dv : deviations) (c : scase) (i : nat) :=
              | S j => match nth_error (sc_steps c) j with Some (_, o) => o_state o | None => sc_init c end
              end in
   match nth_error (sc_steps c) i with
-  | Some (s, o) => Some (s, model_out H c dv (N.of_nat (S i)) pre s, spec_out H c (N.of_nat (S i)) pre s, o)
+  | Some (s, o) => Some (s, model_out H dv (N.of_nat (S i)) pre s, spec_out H (N.of_nat (S i)) pre s, o)
   | None => None
   end.
 Definition scase_explain (H : host) (dv : deviations) (c : scase) :=
